@@ -137,7 +137,10 @@ def build(rng, P, rep, table_mode=False):
              Node(rx(bind(lambda x, y: x * 10 + y, src.param.a, src2.param.a)), lambda: src.a * 10 + src2.a, 'bind(a,a2)', 'num', 'bind',
                   ins=['a', 'a2']),
              Node(rx(bind(lambda x, k=1: x + k, roots[0], k=src.param.a)), lambda: rootvals[0] + src.a, 'bind(r0,k=a)', 'num', 'bind',
-                  ins=['r0', 'a'])]
+                  ins=['r0', 'a']),
+             # a bound function handed to another bound function by keyword; the inner one has several inputs
+             Node(rx(bind(lambda x, inner=0: x - inner, src2.param.a, inner=bind(lambda p, q, r: p * 100 + q * 7 + r, src.param.a, roots[1], src2.param.a))),
+                  lambda: src2.a - (src.a * 100 + rootvals[1] * 7 + src2.a), 'bind(a2,inner=bind(a,r1,a2))', 'num', 'bind', ins=['a2', 'a', 'r1'])]
     dnode = Node(droot, lambda: dval[0], 'D', 'dict', 'root', ins=['D'])
     snode = Node(sroot, lambda: sval[0], 'S', 'set', 'root', ins=['S'])
     nodes += [dnode, snode]
